@@ -125,6 +125,7 @@ def main(run):
                 other = [Q(fr(v)) for v in gen_stream(rnd, n, rnd.choice(KINDS))]
                 w2, w3, e2, e3 = WelfordTracker(), WelfordTracker(), ExponentialSmoothingTracker(alpha), ExponentialSmoothingTracker(alpha)
                 s1 = s2 = Fraction(0)
+                sparse_reads = rep % 2 == 1
                 if rnd.random() < 0.5:      # reading a fresh tracker (before the first update) must not change it
                     _ = (w.var, w.std, w.mean, w.get(), w(), e.get(), e(), w.N, e.N)
                     run.ok(kind="pure-read-before-first-update")
@@ -159,6 +160,8 @@ def main(run):
                     m = i + 1
                     s1 += fv[i]
                     s2 += fv[i] * fv[i]
+                    if sparse_reads and m != n and rnd.random() > 0.2:
+                        continue            # statistics are read at a few random times only
                     mean = s1 / m
                     var = s2 / m - mean * mean
                     probs = []
@@ -260,6 +263,35 @@ def main(run):
                 if not (abs(float(e.get()) - float(es)) <= tol):
                     run.violation("smoothing-closed-form", f"{tname} n={n} alpha={alpha}: {e.get()!r} vs exact {float(es)!r}", rp)
                 run.nontriv(("c10f", tname, n, rep))
+    # array-valued streams: the statistics are element-wise, the caller's arrays stay untouched
+    for shape in ((1,), (3,)):
+        for n in (2, 5, 40):
+            vals = [np.array([rnd.uniform(-9, 9) for _ in range(shape[0])]) for _ in range(n)]
+            keep = [v.copy() for v in vals]
+            alpha = rnd.choice([0.25, 0.5, 0.9])
+            w, e = WelfordTracker(), ExponentialSmoothingTracker(alpha)
+            try:
+                for v in vals:
+                    w.update(v)
+                    _ = w.var
+                    e.update(v)
+            except Exception as ex:
+                run.ok(kind="array-stream")
+                run.violation("update-raises", f"array stream shape {shape} n={n}: {type(ex).__name__}: {ex}", {"shape": shape, "n": n})
+                continue
+            arr = np.array(keep)
+            run.ok(3, kind="array-stream")
+            rp = {"shape": shape, "n": n, "alpha": alpha, "values": [v.tolist() for v in keep[:6]]}
+            es = sum(alpha * (1 - alpha) ** (n - 1 - j) * keep[j] for j in range(n))
+            if not np.allclose(np.asarray(w.mean, dtype=float), arr.mean(axis=0), rtol=1e-12, atol=1e-12) or w.N != n:
+                run.violation("welford-mean", f"array stream shape {shape} n={n}: mean {w.mean!r} vs {arr.mean(axis=0)!r}", rp)
+            if not np.allclose(np.asarray(w.var, dtype=float), arr.var(axis=0), rtol=1e-10, atol=1e-12):
+                run.violation("welford-variance", f"array stream shape {shape} n={n}: var {w.var!r} vs {arr.var(axis=0)!r}", rp)
+            if not np.allclose(np.asarray(e.get(), dtype=float), es, rtol=1e-12, atol=1e-12):
+                run.violation("smoothing-closed-form", f"array stream shape {shape} n={n}: {e.get()!r} vs {es!r}", rp)
+            if any(not np.array_equal(a, b) for a, b in zip(vals, keep)):
+                run.violation("input-modified", f"array stream shape {shape} n={n}: the caller's arrays were modified", rp)
+            run.nontriv(("c10arr", shape, n))
     rec.close()
     run.notes["welford_update_line_paths"] = sorted(map(list, wpaths))
     run.notes["smoothing_update_line_paths"] = sorted(map(list, epaths))
